@@ -394,7 +394,13 @@ mtbl_fileset_reload_now(struct mtbl_fileset *f)
 	f->shared_fs->n_unloaded = 0;
 	assert(f->shared_fs->my_fs != NULL);
 	my_fileset_reload(f->shared_fs->my_fs);
-	if (f->shared_fs->n_loaded > 0 || f->shared_fs->n_unloaded > 0)
+	/*
+	 * Rebuild our merger if this reload changed the set of readers, or if
+	 * an earlier reload through another handle of the shared fileset did.
+	 */
+	if (f->shared_fs->n_loaded > 0 || f->shared_fs->n_unloaded > 0 ||
+	    (f->fs_last.tv_sec != f->shared_fs->fs_last.tv_sec) ||
+	    (f->fs_last.tv_nsec != f->shared_fs->fs_last.tv_nsec))
 		fs_reinit_merger(f);
 	f->shared_fs->fs_last = now;
 	f->fs_last = now;
